@@ -5,6 +5,7 @@ import (
 	"crypto/rsa"
 	"crypto/x509"
 	"encoding/base64"
+	"fmt"
 	"time"
 
 	enc "github.com/named-data/ndnd/std/encoding"
@@ -56,15 +57,35 @@ type SignerSpec struct {
 	New      func() ndn.Signer
 	Validate func(cov enc.Wire, sig ndn.Signature) bool // nil: no validator is shipped for it
 	Slow     bool                                       // expensive verification (tamper clause bounds it)
+	// KeyVariant: same constructor and mode as another entry, only the key material differs (HMAC
+	// key lengths around the SHA-256 block size, a second ECDSA / RSA key). Not part of the
+	// generic "signer" deviation dimension; C12 enumerates them as signer modes of their own.
+	KeyVariant bool
 }
 
 var (
-	HmacKey    = []byte("verif-hmac-key-0123456789")
-	KeyP256    *ecdsa.PrivateKey
-	KeyP521    *ecdsa.PrivateKey
-	KeyRSA1024 *rsa.PrivateKey
-	KeyRSA2048 *rsa.PrivateKey
+	HmacKey     = []byte("verif-hmac-key-0123456789")
+	KeyP256     *ecdsa.PrivateKey
+	KeyP521     *ecdsa.PrivateKey
+	KeyRSA1024  *rsa.PrivateKey
+	KeyRSA2048  *rsa.PrivateKey
+	KeyP256b    *ecdsa.PrivateKey
+	KeyRSA2048b *rsa.PrivateKey
 )
+
+// HmacKeyLens are the lengths of the additional HMAC keys: 1, and around the digest size (32) and
+// the block size (64) of SHA-256, where HMAC treats the key differently (RFC 2104: a key longer
+// than the block is replaced by its digest).
+var HmacKeyLens = []int{1, 32, 63, 64, 65, 128}
+
+// HmacKeyOfLen returns the fixed test key of n bytes.
+func HmacKeyOfLen(n int) []byte {
+	k := make([]byte, n)
+	for i := range k {
+		k[i] = byte(0x30 + (i*11+n)%75)
+	}
+	return k
+}
 
 func mustKey(b64 string) any {
 	der, err := base64.StdEncoding.DecodeString(b64)
@@ -83,6 +104,9 @@ func init() {
 	KeyP521 = mustKey(keyP521).(*ecdsa.PrivateKey)
 	KeyRSA1024 = mustKey(keyRSA1024).(*rsa.PrivateKey)
 	KeyRSA2048 = mustKey(keyRSA2048).(*rsa.PrivateKey)
+	KeyP256b = mustKey(keyP256b).(*ecdsa.PrivateKey)
+	KeyRSA2048b = mustKey(keyRSA2048b).(*rsa.PrivateKey)
+	KeyRSA2048b.Precompute()
 	KeyRSA1024.Precompute()
 	KeyRSA2048.Precompute()
 	signerList = buildSigners()
@@ -112,7 +136,7 @@ func buildSigners() []SignerSpec {
 	rs := func(k *rsa.PrivateKey) func(enc.Wire, ndn.Signature) bool {
 		return func(c enc.Wire, s ndn.Signature) bool { return security.RsaValidate(c, s, &k.PublicKey) }
 	}
-	return []SignerSpec{
+	list := []SignerSpec{
 		{Name: "sha256", Family: "sha256", New: func() ndn.Signer { return security.NewSha256Signer() }, Validate: sha},
 		{Name: "sha256-int", Family: "sha256", New: func() ndn.Signer { return security.NewSha256IntSigner(FixedTimer{}) }, Validate: sha},
 		{Name: "hmac", Family: "hmac", New: func() ndn.Signer { return security.NewHmacSigner(keyName("h"), HmacKey, false, 0) }, Validate: hm},
@@ -131,6 +155,22 @@ func buildSigners() []SignerSpec {
 		// key locator name with four zero-length components: /K/<e>/<e>/<e>/<e>/KEY
 		{Name: "hmac-klempty", Family: "hmac", New: func() ndn.Signer { return security.NewHmacSigner(keyNameEmpties(), HmacKey, false, 0) }, Validate: hm},
 	}
+	// key material variants (appended last: the indices of the modes above never change)
+	for _, n := range HmacKeyLens {
+		key := HmacKeyOfLen(n)
+		val := func(c enc.Wire, s ndn.Signature) bool { return security.HmacValidate(c, s, key) }
+		list = append(list,
+			SignerSpec{Name: fmt.Sprintf("hmac-key%d", n), Family: "hmac", KeyVariant: true, Validate: val,
+				New: func() ndn.Signer { return security.NewHmacSigner(keyName("h"), key, false, 0) }},
+			SignerSpec{Name: fmt.Sprintf("hmac-int-key%d", n), Family: "hmac", KeyVariant: true, Validate: val,
+				New: func() ndn.Signer { return security.NewHmacIntSigner(key, FixedTimer{}) }})
+	}
+	list = append(list,
+		SignerSpec{Name: "ecdsa-p256-keyB", Family: "ecdsa", KeyVariant: true, Validate: ec(KeyP256b),
+			New: func() ndn.Signer { return security.NewEccSigner(false, false, 0, KeyP256b, keyName("eB")) }},
+		SignerSpec{Name: "rsa2048-keyB", Family: "rsa", KeyVariant: true, Validate: rs(KeyRSA2048b),
+			New: func() ndn.Signer { return security.NewRsaSigner(false, false, 0, KeyRSA2048b, keyName("rB")) }})
+	return list
 }
 
 func keyNameEmpties() enc.Name {
